@@ -20,6 +20,20 @@ modes and same reference acceptor as Part A: a Manifest holds at most one signed
 block; whatever non-blank follows its END line is unsigned data / misplaced
 armor, and only that block may be handed to verification.
 
+Part S (separator-character family): a line ends at LF only.  For each of the
+characters VT FF FS GS RS NEL U+2028 U+2029 and a lone mid-line CR (line ends
+for str.splitlines(), not for a Manifest), written once or twice and followed
+by nothing / a valid entry / an exact BEGIN-SIGNED / BEGIN-SIGNATURE /
+END-SIGNATURE line, the carrier lines 'Key: value<z..>payload' (armor-header /
+signature text), 'word<z..>payload' (junk) (thorough: + '- word<z..>payload')
+are placed in every slot of the frame [pre] SB [hdr] blank [body] GB [sig] GE
+[post] (each slot empty or one line out of entry / carriers; at least one
+carrier) and every non-empty prefix of every such frame is loaded in the same
+three modes and judged by the same reference acceptor, for which the carrier
+is ONE ordinary line: nothing after the separator is an entry, an armor line
+or a blank line, and the text handed to verification contains the separator
+characters unchanged.
+
 Part B: genuinely gpg-signed Manifests, every single textual mutation from a
 fixed menu, ``load(verify_openpgp=True)`` with the real isolated gpg environment;
 whenever load succeeds, ``gpg --decrypt`` of the same text in the same GNUPGHOME
@@ -68,6 +82,20 @@ RULE = ('Part A: plain product enumeration of ALL line sequences of length <= L 
         'dimension, which makes every document of the family distinct by construction (those of <= L lines also '
         'occur in Part A and are subtracted from the distinct-document count); loaded in the same three modes and '
         'judged by the same reference acceptor as Part A; all are non-trivial (they contain armor). '
+        'Part S (separator-character family): a Manifest line ends at LF and nowhere else; for every z in {VT, FF, '
+        'FS, GS, RS, NEL, U+2028, U+2029, lone mid-line CR} (each a line end for str.splitlines / Unicode line '
+        'breaking), s in {z, zz}, payload in {nothing, a valid entry unlike any other entry of the alphabet, the exact '
+        'SB line, the exact GB line, the exact GE line} (9 x 2 x 5 = 90 alphabets) the carrier lines HD = '
+        "'Key: value' s payload (armor-header / signature-block text), JK = word s payload (junk: first field is no "
+        "Manifest tag however the line is split), thorough also DAR = '- ' word s payload, replace the plain HD / JK / "
+        'DAR classes; documents = ALL distinct non-empty line prefixes of ALL frames [pre] SB [hdr] blank [body] GB '
+        '[sig] GE [post] whose five slots are each empty or hold one line out of {entry, HD, JK} (thorough: + '
+        "'- entry', DAR) and that contain at least one carrier line, with final newline (thorough: also without) - "
+        '1302 documents per alphabet quick (117180 in all), 17907 thorough (1611630 in all); each contains a carrier, '
+        'so all are distinct from each other and from Part A / T by construction; loaded in the same three modes and '
+        'judged by the same reference acceptor as Part A (the carrier is one ordinary line of its class: nothing '
+        'behind the separator is an entry, a blank line or armor; the block text handed to verification contains it '
+        'verbatim); all are non-trivial. '
         'Part B: 5 gpg-clearsigned Manifests x every single mutation of a fixed menu (insert each of the 14 line '
         'classes at each position, delete/duplicate each line, move each line to each position (quick: first '
         'base only), CRLF / bare CR per line, add/remove dash-escape per line, trailing whitespace per line, '
@@ -90,6 +118,14 @@ ASSUMPTIONS = [
     'a document that is invalid only because of content outside an in-itself well-formed signed block may have '
     'exactly that block (BEGIN line through END line) handed to verification before it is rejected - the '
     'statement fixes WHAT is handed over, not WHEN; nothing else may ever be handed over',
+    'Part S: lines are what the text stream yields (LF-terminated, io.StringIO without newline translation) and '
+    'what RFC 4880 section 7 delimits; VT FF FS GS RS NEL U+2028 U+2029 and a CR that is not followed by LF are '
+    'ordinary characters of a line.  Bound: one separator kind per document, written once or twice, in at most one '
+    'line per slot of a single frame, carriers with a header-like or junk prefix only.  A raw separator inside an '
+    'entry line, at the start of a line, or a line made of separators only are NOT explored: the path escape rules '
+    'demand \\xNN / \\uNNNN for all of them, so whether / how such a line splits into fields or counts as blank is '
+    'arguable (refmanifest.split_fields: don\'t-care); a file opened in text mode translates a lone CR to LF '
+    'before load sees it, that layer is out of scope here (Part B has CR / CRLF mutations judged by gpg)',
     'Part B trusts GnuPG 2.2 (--decrypt output = the cleartext it authenticated) and a single RSA test key in '
     'an isolated GNUPGHOME; loads go through io.StringIO (no universal-newline translation as with real files)',
     'Part A openpgp_env is a recording stub: it shows WHAT is handed to verification, not whether gpg agrees '
@@ -128,20 +164,21 @@ class _RecEnv:
         return DUMMY_SIG
 
 
-def _traced(lines, trace):
-    """Line iterator handed to load() in place of a file: records load's local
-    ``state`` at every fetch (None when unavailable)."""
-    getframe = sys._getframe
-    for ln in lines:
+class _TracedFile(io.StringIO):
+    """The stream handed to load() in mode 'off': a real text stream (LF-terminated lines, no newline
+    translation, so read() / readline() work as well) that records load's local ``state`` at every line
+    fetched by iteration (None when unavailable) and once more at the end of the stream."""
+
+    def __init__(self, text, trace):
+        super().__init__(text)
+        self._trace = trace
+
+    def __next__(self):
         try:
-            trace.append(getframe(1).f_locals.get('state'))
+            self._trace.append(sys._getframe(1).f_locals.get('state'))
         except Exception:           # noqa: BLE001 - enrichment only
-            trace.append(None)
-        yield ln
-    try:
-        trace.append(getframe(1).f_locals.get('state'))
-    except Exception:               # noqa: BLE001
-        trace.append(None)
+            self._trace.append(None)
+        return super().__next__()
 
 
 def _where(e):
@@ -255,7 +292,7 @@ def judge_doc(A, seq, final_nl, observations, part='A'):
     return v0, dc, verdicts, viols
 
 
-def run_doc(A, seq, final_nl, stats, loc, seed, part='A'):
+def run_doc(A, seq, final_nl, stats, loc, seed, part='A', akey=None):
     lines = [A.lines_nl[c] for c in seq]
     text = ''.join(lines)
     if not final_nl:
@@ -263,7 +300,7 @@ def run_doc(A, seq, final_nl, stats, loc, seed, part='A'):
         lines[-1] = lines[-1][:-1]
     obs = {}
     trace = []
-    obs['off'] = load_observe(_traced(lines, trace), 'off')
+    obs['off'] = load_observe(_TracedFile(text, trace), 'off')
     fed = len(trace) - 1 if (trace and len(trace) == len(lines) + 1) else len(trace)
     stats.transitions += fed
     for mode in ('ok', 'raise'):
@@ -316,8 +353,10 @@ def run_doc(A, seq, final_nl, stats, loc, seed, part='A'):
                       'observed': {m: ('ret' if obs[m][0] is None else obs[m][0]) + ' entries=%r verify_calls=%d' % (obs[m][1], len(obs[m][4]))
                                    for m in MODES}})
     for mode, sig, msg in viols:
-        stats.violation(sig, {'part': part, 'seed': seed, 'classes': list(seq), 'final_nl': final_nl,
-                              'mode': mode, 'text': text}, msg)
+        case = {'part': part, 'seed': seed, 'classes': list(seq), 'final_nl': final_nl, 'mode': mode, 'text': text}
+        if akey is not None:
+            case['alpha'] = list(akey)
+        stats.violation(sig, case, msg)
     return refkind, obs
 
 
@@ -384,7 +423,10 @@ def a_run(spec, tier, seed, stats):
 
 
 def a_replay(case):
-    A = ref.alphabet(case['seed'])
+    if case.get('alpha') is not None:
+        A = s_alphabet(case['seed'], *case['alpha'])
+    else:
+        A = ref.alphabet(case['seed'])
     seq = tuple(case['classes'])
     final_nl = case['final_nl']
     text = ''.join(A.lines_nl[c] for c in seq)
@@ -516,6 +558,182 @@ def t_run(spec, tier, seed, stats):
                 if tail[-1] != ref.GE:
                     c['T_tail_with_second_block_and_more'] += 1
     _emit(loc, stats, 'T')
+
+
+# ====================================================================== Part S (separator-character family)
+#
+# A "line" of a Manifest ends at LF and nowhere else: that is how the text stream handed to load() delivers
+# lines and how the OpenPGP implementation delimits the lines of the cleartext signature framework (RFC 4880
+# section 7).  The characters below end a line for str.splitlines() / Unicode line breaking, but NOT in a
+# Manifest; the reference acceptor therefore treats them as ordinary characters of the one line they stand in.
+#
+#   z        in S_SEPS    VT FF FS GS RS NEL U+2028 U+2029 and a lone CR (mid-line)
+#   s        = z | zz     (zz: what follows would even be preceded by an "empty line")
+#   payload  in S_PAYLOADS  nothing | a valid entry (different from every other entry of the alphabet)
+#                         | the exact BEGIN-SIGNED | BEGIN-SIGNATURE | END-SIGNATURE line
+#   carrier lines (the separator-bearing members of the alphabet, written  PREFIX s payload):
+#       HD  'Key: value' s payload      armor-header text (also legal as signature-block text)
+#       JK  word s payload              junk whose first field is no Manifest tag however the line is split
+#       DAR '- ' word s payload         the same, dash-escaped                                  (thorough)
+#   document := any non-empty prefix (cut after a whole line) of
+#                 [pre] SB [hdr] BLANK [body] GB [sig] GE [post]
+#               where each bracketed slot is empty or holds one line out of {entry, HD, JK} (thorough: + DAR,
+#               '- entry') and at least one carrier line is present; final newline present (thorough: also
+#               absent).  So a carrier is explored before the block, among the armor headers, in the signed
+#               body, in the signature block and after the block, in complete and in truncated blocks.
+#
+# A raw separator character inside an *entry* line is not part of the family: the path escape rules require
+# every one of these characters to be written as \xNN / \uNNNN (refmanifest.needs_escape), so such a line is
+# not a well-formed entry and how it is split into fields is arguable (refmanifest.split_fields -> don't-care);
+# the carriers are chosen such that they are NOT an entry under any field splitting.  Same three load modes,
+# same reference acceptor (gverif/c04ref.scan on the class sequence) and same judge as Part A / T.
+
+S_SEPS = ('\x0b', '\x0c', '\x1c', '\x1d', '\x1e', '\x85', '\u2028', '\u2029', '\r')
+S_SEP_NAMES = ('VT', 'FF', 'FS', 'GS', 'RS', 'NEL', 'LS', 'PS', 'CR')
+S_REPS = (1, 2)
+S_PAY_NAMES = ('none', 'entry', 'SB', 'GB', 'GE')
+S_SPECIAL = (ref.HD, ref.JK, ref.DAR)
+S_SAMPLE_KEY = (1, 2, 1)            # FF FF entry
+S_SAMPLE_SEQ = (ref.SB, ref.HD, ref.BL, ref.GB, ref.GE)
+_S_ALPHA = {}
+_S_ANYSPLIT = None
+
+
+def s_alphabet(seed, zi, rep, pi):
+    """The Part A alphabet of this seed with the classes HD, JK, DAR replaced by carrier lines."""
+    global _S_ANYSPLIT
+    key = (seed % 3, zi, rep, pi)
+    if key in _S_ALPHA:
+        return _S_ALPHA[key]
+    import re
+    if _S_ANYSPLIT is None:
+        _S_ANYSPLIT = re.compile('[' + ''.join(S_SEPS) + ' \t\x1f]+')
+    base = ref.alphabet(seed)
+    k = seed % 3
+    sep = S_SEPS[zi] * rep
+    evil = ('DATA evil 0', 'IGNORE evil', 'MISC evil 1 MD5 d41d8cd98f00b204e9800998ecf8427f')[k]
+    pay = ('', evil, ref.SB_LINE, ref.GB_LINE, ref.GE_LINE)[pi]
+    hd = ('Comment: x', 'Hash: SHA256', 'NotDashEscaped: y')[k]
+    word = ('foo', 'data', 'DATAX')[k]
+    A = ref.Alphabet()
+    lines = list(base.lines)
+    lines[ref.HD] = hd + sep + pay
+    lines[ref.JK] = word + sep + pay
+    lines[ref.DAR] = '- ' + word + sep + pay
+    A.lines = tuple(lines)
+    A.lines_nl = tuple(ln + '\n' for ln in lines)
+    A.e_ve = base.e_ve
+    A.e_dve = base.e_dve
+    A.hd_is_header = True
+    A.payload = pay
+    # ground the roles: the payload entry is an entry and differs from the other two; a carrier is not an
+    # entry however it is split into fields (first field is no tag), is not blank, is not an armor line
+    st, e = rm.parse(evil)
+    assert st == 'ok' and len(e) == 1 and e[0] not in (A.e_ve, A.e_dve), evil
+    A.e_pay = e[0]
+    assert re.match(r'^[A-Za-z][A-Za-z0-9-]*: [!-~]', lines[ref.HD])
+    for c in S_SPECIAL:
+        ln = lines[c][2:] if c == ref.DAR else lines[c]
+        assert '\n' not in ln and sep in ln
+        for first in (ln.split(' ')[0], _S_ANYSPLIT.split(ln)[0]):
+            assert first and first not in rm.ALL_TAGS, (ln, first)
+        assert ln not in (ref.SB_LINE, ref.GB_LINE, ref.GE_LINE) and not ln.startswith('-----')
+    _S_ALPHA[key] = A
+    return A
+
+
+def s_options(tier):
+    """Classes a slot may hold (besides staying empty)."""
+    if tier == 'quick':
+        return (ref.VE, ref.HD, ref.JK)
+    return (ref.VE, ref.DVE, ref.HD, ref.JK, ref.DAR)
+
+
+def s_nls(tier):
+    return (True,) if tier == 'quick' else (True, False)
+
+
+def s_keys():
+    return [(zi, rep, pi) for zi in range(len(S_SEPS)) for rep in S_REPS for pi in range(len(S_PAY_NAMES))]
+
+
+def s_seqs(tier):
+    """Every distinct non-empty prefix of [pre] SB [hdr] BL [body] GB [sig] GE [post] with a carrier line."""
+    opts = s_options(tier)
+    fixed = (ref.SB, ref.BL, ref.GB, ref.GE)
+    out = []
+
+    def rec(seq, j, has):
+        # slot j is next
+        for o in opts:
+            s2 = seq + (o,)
+            h2 = has or o in S_SPECIAL
+            if h2:
+                out.append(s2)
+            if j < 4:
+                s3 = s2 + (fixed[j],)
+                if h2:
+                    out.append(s3)
+                rec(s3, j + 1, h2)
+        if j < 4:
+            s3 = seq + (fixed[j],)
+            if has:
+                out.append(s3)
+            rec(s3, j + 1, has)
+
+    rec((), 0, False)
+    return out
+
+
+def s_expected(tier):
+    """Size of the stated space (closed form, independent of the generator)."""
+    opts = s_options(tier)
+
+    def nodes(o):
+        return sum((o + 1) ** j for j in range(1, 5)) + o * sum((o + 1) ** j for j in range(0, 5))
+
+    o = len(opts)
+    o0 = len([c for c in opts if c not in S_SPECIAL])
+    per = nodes(o) - nodes(o0)
+    if False in s_nls(tier):
+        # without final newline: all but the prefixes that end in the blank separator line
+        per += per - ((o + 1) ** 2 - (o0 + 1) ** 2)
+    return per * len(s_keys())
+
+
+def s_run(spec, tier, seed, stats):
+    _s, zi, rep, pi = spec
+    akey = (zi, rep, pi)
+    A = s_alphabet(seed, zi, rep, pi)
+    sep = S_SEPS[zi]
+    loc = _new_loc()
+    c = stats.counters
+    nls = s_nls(tier)
+    ndocs = 0
+    for seq in s_seqs(tier):
+        for final_nl in nls:
+            if not final_nl and seq[-1] == ref.BL:
+                continue
+            refkind, obs = run_doc(A, seq, final_nl, stats, loc, seed, 'S', akey)
+            ndocs += 1
+            if seq[-1] != ref.GE and ref.GE not in seq[:-1]:
+                c['S_truncated_frame'] += 1
+            if refkind == 'VS':
+                o = obs['ok']
+                if o[0] is None and len(o[4]) == 1 and sep in o[4][0]:
+                    c['S_valid_signed_accepted_separator_in_verified_text'] += 1
+            if akey == S_SAMPLE_KEY and seq == S_SAMPLE_SEQ and final_nl:
+                v = ref.scan(A, seq, final_nl, False, False, False)
+                stats.sample({'part': 'S', 'separator': S_SEP_NAMES[zi], 'classes': [ref.CLASS_NAMES[x] for x in seq],
+                              'document': ''.join(A.lines_nl[x] for x in seq),
+                              'reference': 'valid signed; the armor header is ONE line, nothing in it is an entry',
+                              'expected_entries': repr(v.entries), 'text_for_verify_file': v.text,
+                              'observed': {m: ('ret' if obs[m][0] is None else obs[m][0])
+                                           + ' entries=%r verify_calls=%d' % (obs[m][1], len(obs[m][4])) for m in MODES}})
+    c['S_sep:' + S_SEP_NAMES[zi]] += ndocs
+    c[f'S_sep_repeat:{rep}'] += ndocs
+    c['S_payload:' + S_PAY_NAMES[pi]] += ndocs
+    _emit(loc, stats, 'S')
 
 
 # ====================================================================== Part B
@@ -828,7 +1046,9 @@ def shards(tier, seed):
     first = [x for x in bs if x[1:3] in ((3, 'unesc'), (0, 'hdr'))]
     ts = [('T', pi, c0) for pi in range(len(t_prefixes(tier))) for c0 in T_NONBLANK]
     first.append(ts[0])             # holds the written-out sample of the family
-    return first + out + ts[1:] + [x for x in bs if x not in first]
+    ss = [('S',) + k for k in s_keys()]
+    first.append(('S',) + S_SAMPLE_KEY)
+    return first + out + ts[1:] + [x for x in ss if x not in first] + [x for x in bs if x not in first]
 
 
 def run_shard(spec, tier, seed, scratch):
@@ -837,13 +1057,15 @@ def run_shard(spec, tier, seed, scratch):
         a_run(spec, tier, seed, stats)
     elif spec[0] == 'T':
         t_run(spec, tier, seed, stats)
+    elif spec[0] == 'S':
+        s_run(spec, tier, seed, stats)
     else:
         b_run(spec, tier, seed, stats)
     return stats
 
 
 def replay(case, scratch):
-    if case['part'] in ('A', 'T'):
+    if case['part'] in ('A', 'T', 'S'):
         return a_replay(case)
     return b_replay(case, scratch)
 
@@ -924,6 +1146,35 @@ def finish(total, tier):
         fed = {cl for s, cl, _n in t_trans if s == 4}
         if not set(T_NONBLANK) <= fed:
             errs.append(f'vacuity: Part T: only classes {sorted(fed)} were fed to the implementation after a complete block')
+    # ---- separator-character family
+    want_s = s_expected(tier)
+    if c['S_documents'] != want_s:
+        errs.append(f'Part S enumerated {c["S_documents"]} documents, the stated space has {want_s}')
+    s_out = {k for k in total.outcomes if k.startswith('S:')}
+    if len({k.split('/', 1)[0] for k in s_out}) < 2 or len(s_out) < 4:
+        errs.append(f'vacuity: Part S produced the outcome classes {sorted(s_out)} only')
+    for mode in MODES:
+        if not total.outcomes.get(f'S:VS/{mode}/' + ('exc:OpenPGPVerificationFailure' if mode == 'raise' else 'ret')):
+            errs.append(f'vacuity: Part S: no valid signed document with a separator-bearing line was accepted in mode {mode}')
+        if not any(k.startswith(f'S:INV/{mode}/exc:') for k in s_out):
+            errs.append(f'vacuity: Part S: no invalid document was rejected in mode {mode}')
+    per_key = want_s // len(s_keys())
+    for nm in S_SEP_NAMES:
+        if c.get('S_sep:' + nm) != per_key * len(S_REPS) * len(S_PAY_NAMES):
+            errs.append(f'vacuity: Part S: separator {nm} explored in {c.get("S_sep:" + nm)} documents')
+    for nm in S_PAY_NAMES:
+        if c.get('S_payload:' + nm) != per_key * len(S_REPS) * len(S_SEPS):
+            errs.append(f'vacuity: Part S: payload {nm} explored in {c.get("S_payload:" + nm)} documents')
+    for k in ('S_truncated_frame', 'S_valid_signed_accepted_separator_in_verified_text', 'S_valid_signed_with_entries',
+              'S_defect:outside_junk', 'S_defect:body_junk', 'S_defect:truncated_in_headers',
+              'S_defect:truncated_in_body', 'S_defect:truncated_in_signature'):
+        if not c.get(k):
+            errs.append(f'vacuity: counter {k} is zero')
+    _st, _sp, s_refpos = _fsm_summary(c, 'S')
+    for posn in ('pre', 'hdr', 'body', 'sig', 'post'):
+        got = {cl for p, cl in s_refpos if p == posn}
+        if not {ref.HD, ref.JK} <= got:
+            errs.append(f'vacuity: Part S: no separator-bearing line at reference position {posn!r}')
     if not c.get('B_accepted'):
         errs.append('vacuity: Part B has no mutant accepted by load')
     if not c.get('B_rejected'):
@@ -943,17 +1194,25 @@ def extra_evidence(total, tier):
         tgt = STATE_NAMES.get(int(nxt), nxt) if nxt.isdigit() else nxt
         table.setdefault(nm, {}).setdefault(ref.CLASS_NAMES[cl], []).append(tgt)
     slim = {k: v for k, v in c.items()
-            if not k.startswith(('A_fsm:', 'A_pair:', 'A_refpos:', 'T_fsm:', 'T_pair:', 'T_refpos:'))}
+            if not k.startswith(('A_fsm:', 'A_pair:', 'A_refpos:', 'T_fsm:', 'T_pair:', 'T_refpos:',
+                                 'S_fsm:', 'S_pair:', 'S_refpos:'))}
     nb = len(total.states)
     t_trans, t_pairs, _tr = _fsm_summary(c, 'T')
     t_new = c['T_documents'] - c['T_documents_also_in_part_A']
     forms, seps, F, C = t_bounds(tier)
     return {
-        'states': c['A_documents'] + t_new + nb,
-        'distinct_nontrivial': c['A_documents_nontrivial'] + t_new + len(total.nontrivial),
+        'states': c['A_documents'] + t_new + c['S_documents'] + nb,
+        'distinct_nontrivial': c['A_documents_nontrivial'] + t_new + c['S_documents'] + len(total.nontrivial),
         'states_meaning': 'distinct documents: Part A (class sequence, final newline) and Part T (first block, '
                           'separator, tail, final newline) each enumerated once by construction, Part T documents of '
-                          '<= L lines (which Part A has too) subtracted + Part B distinct mutated texts (hashed)',
+                          '<= L lines (which Part A has too) subtracted + Part S (separator, repeat, payload, frame '
+                          'prefix, final newline; each contains a separator-bearing line, so none occurs in A / T) '
+                          '+ Part B distinct mutated texts (hashed)',
+        'part_s_documents': c['S_documents'],
+        'part_s_bound': {'separators': list(S_SEP_NAMES), 'repeats': list(S_REPS), 'payloads': list(S_PAY_NAMES),
+                         'slot_classes': [ref.CLASS_NAMES[x] for x in s_options(tier)],
+                         'frame': '[pre] SB [hdr] blank [body] GB [sig] GE [post], every non-empty prefix',
+                         'final_newline': [bool(x) for x in s_nls(tier)]},
         'part_a_documents': c['A_documents'],
         'part_t_documents': c['T_documents'],
         'part_t_documents_not_in_part_a': t_new,
